@@ -91,8 +91,8 @@ def judge_matrix(res, M, X, diag, what, w):
             return
         dg = np.diag(Md)
     ratio = np.abs(np.log(np.maximum(dg, 1e-30) / np.maximum(v + 1e-3, 1e-30)))
-    if np.any(ratio > np.log(1.5)):
-        i = int(np.argmax(ratio))
+    if np.any(~(ratio <= np.log(1.5))):
+        i = int(np.argmax(np.where(np.isnan(ratio), np.inf, ratio)))
         res.violation("mm-misaligned", f"{what}: entry {i} of the tuned inverse mass matrix is {dg[i]:.5g} but the variance of flat "
                       f"coordinate {i} of the kernel's position in the recorded history is {v[i]:.5g} "
                       f"(all entries {np.round(dg, 4).tolist()} vs variances {np.round(v, 4).tolist()})", w)
